@@ -1,6 +1,8 @@
 SPECIFICATION Spec
 CONSTANTS
   Max = 70000
+  Ops = {"text", "binary"}
+  CtlOps = {"ping", "pong"}
   Lens = {0, 1, 125, 126, 65535, 65536, 70000}
   CtlLens = {0, 1, 125}
   MaxMsgs = 2
@@ -11,6 +13,7 @@ CONSTANTS
   Apis = {"NF", "NM"}
   Viols = {}
   VLens = {0, 1, 126}
+  PairConf = TRUE
   MaxHist = 0
   BUG_CtlResetsCont = FALSE
   BUG_ConsumeShort = FALSE
